@@ -586,6 +586,10 @@ class CastUnmarshaller(AbstractUnmarshaller[T]):
         Args:
             val: The input value to unmarshal.
         """
+        # If the target type is itself text-like (e.g. a `str` enum), an instance of it
+        #   is already what we want and must not be decoded.
+        if inspection.istexttype(self.t) and isinstance(val, self.t):
+            return val
         # Try to load the string, if this is JSON or a literal expression.
         decoded = serdes.load(val)
         # Short-circuit cast if we have the type we want.
